@@ -10,7 +10,9 @@ from vplib import *
 import lmmm
 from lmmm import *
 
-import importlib.util as _ilu0
+import importlib.util as _ilu0, sys as _sys0
+if os.path.join(VERIF, "checks") not in _sys0.path:
+    _sys0.path.insert(0, os.path.join(VERIF, "checks"))
 def _load_part(name):
     sp = _ilu0.spec_from_file_location("part_" + name, os.path.join(VERIF, "checks", name + ".py"))
     m = _ilu0.module_from_spec(sp); sp.loader.exec_module(m)
